@@ -16,6 +16,20 @@ COMMON_NOTE = (
 
 # id -> (level category, level text, technique, design ref, extra note)
 CLAIMED = {
+    "C07": (
+        "proof",
+        "Lattice-wide lemmas on the REAL Combiner.collect output: the formal sum (view) of the kernels of F_total equals view(F_light) plus the views of the massive flavours in FFNS/FFN0 and view(F_light) in ZM-VFNS; a ZM-treated flavour is the restriction of the massless light part to that quark's couplings (NC: positivity-charge stub, CC: CKM restricted to the flavour's block); FONLL 'full' = 'massless' + 'massive'; the six NCPositivityCharge runs sum to the unrestricted one. Entry-wise identities of weight vectors per (coefficient class, ctor data, order window), weights symbolic.",
+        "contract-based deductive verification: symbolic execution of the real collectors over the enumerated lattice + ratfun normaliser + AST read-set lemma",
+        "DESIGN 4 C07",
+        "interpretation of the FFNS partition as recorded in DESIGN C07; coefficient objects identified by class + constructor data; explicitly rejected cells are skipped and counted.",
+    ),
+    "C16": (
+        "proof",
+        "Dispatch totality over the documented lattice (18k cells quick / full product thorough): kernel collection and every active coeff[o]() either succeed or raise ValueError/NotImplementedError/RuntimeError with a message on every kinematic path; TMC x kind dispatch of sf.get_esf; with symbolic x, Q2, M2 z3 proves that a result object is only returned for 0<x<=1, Q2>0, x>=min(grid) on plain and TMC branches (counter-models are replayed natively); replace_nans_with_0 contract for every valid observable key. Finiteness of in-repo formulas is C03's definedness obligations.",
+        "contract-based deductive verification: exhaustive lattice enumeration with symbolic kinematics + z3",
+        "DESIGN 4 C16",
+        "external libraries assumed finite-or-NaN; projectile collapsed to the CC rest parity in the quick tier.",
+    ),
     "C03": (
         "proof",
         "For every RSL construction site (every PartonicChannel subclass found by module scan x order 0..3 x nf 3..6; every split.raw_labels entry) the real class and order method are executed on symbolic z, x, Q2, m2 and the obligations 'd/dz loc + sing == 0' (mechanical differentiation + exact normaliser in Q(atoms) with z3-proved log factorisation), 'every denominator != 0 / log argument > 0 / sqrt argument >= 0 on the family's domain' (z3) and 'each part is one real scalar' are discharged; plus the generic contract of from_distr_coeffs for coefficient vectors of length 1..6.",
